@@ -79,20 +79,25 @@ type Result struct {
 }
 
 type Ctx struct {
-	Prop, Tier string
-	Seed       uint64
-	Out        string
-	Replay     string
-	R          *Rng
-	Res        Result
-	distinct   map[string]bool
-	shardN     int
-	cur        *shard
-	caseLog    *os.File
-	vioCount   map[string]int
+	Prop, Tier   string
+	Seed         uint64
+	Out          string
+	Replay       string
+	R            *Rng
+	Res          Result
+	distinct     map[string]bool
+	shardN       int
+	modelBytes   int
+	modelSkipped int
+	cur          *shard
+	caseLog      *os.File
+	vioCount     map[string]int
 }
 
 const maxShardBytes = 900000
+
+// about 10 minutes of model evaluation on 16 cores
+const modelByteBudget = 600 << 20
 
 type shard struct {
 	bytes  int
@@ -172,6 +177,21 @@ func (c *Ctx) AddCase(term string, j interface{}) {
 	if c.cur == nil {
 		panic("no open shard")
 	}
+	// the model evaluates at most modelByteBudget bytes of case text per run (coqc needs about 17 CPU-seconds per MB of
+	// literals): cases beyond it are still run on the implementation and judged by the driver's monitors, but are not
+	// shipped to the model; how many were left out is reported in the evidence notes
+	if c.modelBytes+len(term) > modelByteBudget {
+		c.modelSkipped++
+		if c.modelSkipped == 1 {
+			c.Note("model evaluation budget of %d MB of case text reached: later cases are judged by the monitors only (count in extra_coverage.model_cases_over_budget)", modelByteBudget>>20)
+		}
+		if c.Res.ExtraCoverage == nil {
+			c.Res.ExtraCoverage = map[string]interface{}{}
+		}
+		c.Res.ExtraCoverage["model_cases_over_budget"] = c.modelSkipped
+		return
+	}
+	c.modelBytes += len(term)
 	c.cur.cases = append(c.cur.cases, term)
 	c.cur.jsons = append(c.cur.jsons, j)
 	c.cur.bytes += len(term)
